@@ -154,6 +154,17 @@ class CallGraph:
                         res.append(sorted(comp))
         return res
 
+    def recv_type_at(self, file, line, method):
+        """Resolved receiver type of the call of `method` at file:line (None when the driver saw no such call)."""
+        idx = getattr(self, "_recv_idx", None)
+        if idx is None:
+            idx = self._recv_idx = {}
+            for f in self.fns.values():
+                for r in f["refs"]:
+                    if r["kind"] == "call" and r.get("def"):
+                        idx.setdefault((r["file"], r["l"], r["def"].rsplit("::", 1)[-1]), r.get("recv"))
+        return idx.get((file, line, method))
+
     def owner_fn(self, fid):
         """Outermost non-closure function of a body."""
         f = self.fns[fid]
